@@ -17,7 +17,7 @@ Definition filter_exists (b : blocker) (f : rule) : bool :=
   else if is_removeparam f then list_exists (b_removeparam b) f
   else if is_generic_hide f then list_exists (b_generic_hide b) f
   else if is_exception f then list_exists (b_exceptions b) f
-  else if is_important f then list_exists (b_importants b) f
+  else if is_important f && (negb (is_redirect f) || also_block_redirect f) then list_exists (b_importants b) f
   else if is_redirect f then list_exists (b_redirects b) f
   else match rtag f with
        | Some _ => existsb (fun g => N.eqb (rid g) (rid f)) (b_tagged_all b)
